@@ -68,7 +68,14 @@ class Build:
         if rc != 0:
             return False, 'translator build failed:\n' + out
         rc, out = sh([self.root + '/build/translate', '-repo', '/repo', '-out', self.root + '/coq/Gen', '-harness', self.root + '/harness'], cwd=tdir)
-        return rc == 0, out
+        if rc != 0:
+            return False, out
+        # the implementation's own length limits (maxLen() methods, batch constants), evaluated on the current tree
+        ok, hout = self.harness()
+        if not ok:
+            return False, 'harness does not build against /repo:\n' + hout
+        rc, out2 = sh([self.root + '/build/harness', '-limits', self.root + '/coq/Gen/Limits.v'], cwd=self.root + '/harness')
+        return rc == 0, out + out2
 
     def coq(self, prop):
         """full .vo build (incremental), then Props/<prop>.v compiled on its own with output captured"""
